@@ -293,4 +293,6 @@ def shape(t) -> str:
         return 'Ann[' + shape(t[1]) + ';' + ','.join(v[0] for v in t[2:]) + ']'
     if tag == 'g':
         return t[1] + '[' + shape(t[2]) + ']'
+    if tag == 'annm':
+        return 'AnnM[' + shape(t[1]) + ']'
     return '?'
